@@ -368,7 +368,9 @@ func freeRun(id int, seed int64, root string) (*chist, error) {
 			}
 		}(p)
 	}
-	wg.Wait()
+	if !waitBounded(&wg, 40*time.Second) {
+		return nil, fmt.Errorf("free-running calls did not return within 40s (deadlock?)")
+	}
 	e.cursorScan(9, rng)
 	e.l.Close()
 	return &chist{ID: id, Kind: "free", What: fmt.Sprintf("%d goroutines x %d calls", P, M), Keys: true, Times: true, Init: init, Ops: e.ops}, nil
@@ -432,9 +434,23 @@ func tailRun(id int, seed int64, root string) (*chist, error) {
 		}
 	}
 	done.Store(true)
-	wg.Wait()
+	if !waitBounded(&wg, 40*time.Second) {
+		return nil, fmt.Errorf("tailing consumers did not return within 40s (deadlock?)")
+	}
 	e.l.Close()
 	return &chist{ID: id, Kind: "tail", What: fmt.Sprintf("1 publisher x %d, %d tailing consumers", NP, C), Keys: true, Times: true, Init: init, Ops: e.ops}, nil
+}
+
+// waitBounded: code that deadlocks must end a history as "hang", not the whole run.
+func waitBounded(wg *sync.WaitGroup, d time.Duration) bool {
+	done := make(chan struct{})
+	go func() { wg.Wait(); close(done) }()
+	select {
+	case <-done:
+		return true
+	case <-time.After(d):
+		return false
+	}
 }
 
 // ---- window placement
@@ -607,7 +623,11 @@ func c08Worker(args []string) int {
 	}
 	defer f.Close()
 	enc := json.NewEncoder(f)
+	hangs := 0
 	for i := shard; i < nfree+nplace+len(scheds); i += nshards {
+		if hangs >= 4 { // every hang is recorded (and is a violation); code that deadlocks costs tens of seconds per history
+			break
+		}
 		var h *chist
 		var err error
 		fmt.Fprintf(os.Stderr, "C08-HIST %d\n", i)
@@ -625,6 +645,7 @@ func c08Worker(args []string) int {
 			}
 		}
 		if err != nil {
+			hangs++
 			fmt.Fprintf(os.Stderr, "C08-HANG %d %v\n", i, err)
 			enc.Encode(&chist{ID: i, Kind: "hang", What: err.Error(), Init: absState{Live: []MM{}}, Ops: []cop{{ID: 1, Op: "hang", Inv: 1, Ret: 2, Err: "Hang", S: []int64{}, Batch: []MM{}, Assigned: []int64{}, Msgs: []MM{}}}})
 			continue
